@@ -1,5 +1,5 @@
 #!/bin/bash
-# Builds the check binary offline from files on disk (warms the Go build cache).
+# Builds every check binary once, offline, from files on disk (warms the Go build cache).
 set -e
 ROOT="$(cd "$(dirname "$0")" && pwd)"
 export GOFLAGS=-mod=mod GOPROXY=off GOTOOLCHAIN=auto
@@ -7,5 +7,5 @@ unset GOSUMDB
 mkdir -p "$ROOT/bin" "$ROOT/evidence"
 cd "$ROOT/harness"
 cp /repo/go.sum go.sum
-go build -tags verif -o "$ROOT/bin/check" ./cmd/check
-"$ROOT/bin/check" list
+go build -tags verif -o "$ROOT/bin/" ./cmd/...
+ls "$ROOT/bin"
